@@ -354,6 +354,15 @@ def cmdLife : P String := do
   if s.w.wgPanic then return s!"DIFF {prop} model-predicts-waitgroup-panic {feats}"
   return s!"OK {feats}"
 
-def table : List (String × P String) := [("life", cmdLife)]
+/-- `lifeover <trials> <refused> <early> <hits> <stuck>`: result of the start-up overlap probe (harness/life_probe.go;
+    not part of the check streams: the schedule is probabilistic) -/
+def cmdLifeOver : P String := do
+  let trials ← nat; let refused ← nat; let early ← nat; let hits ← nat; let stuck ← nat
+  let feats := s!"nt={if hits != 0 then 1 else 0} trials={trials} refused={refused} early={early} hits={hits} stuck={stuck}"
+  if stuck != 0 then
+    return s!"DIFF C14 bind-concurrent-with-serve-start-not-refused-shutdown-does-not-end-serving {feats}"
+  return s!"OK {feats}"
+
+def table : List (String × P String) := [("life", cmdLife), ("lifeover", cmdLifeOver)]
 
 end Driver.Life
